@@ -46,6 +46,8 @@ type workload struct {
 	sameGoast  bool // retry on the same goast instance (its per-file cache survives the failure)
 	restoreAPI int  // 0 FileRestorer.Fprint, 1 Restorer.Fprint (no alias), 2 RestoreFile
 	localPaths bool // ResolveLocalPath
+	// injected restore-side errors are not-found conditions that wrap resolver.ErrPackageNotFound
+	notFoundErrs bool
 }
 
 type countWriter struct {
@@ -192,6 +194,7 @@ func draw(run *core.Run) *workload {
 		w.alias = map[string]string{}
 	}
 	w.localPaths = t.Bool(1, 8)
+	w.notFoundErrs = t.Bool(1, 3)
 	run.Describe("source (%d bytes, %d imports, %d decls):\n%s", len(w.spec.Src), len(w.spec.Imports), w.spec.Decls, w.spec.Src)
 	run.Describe("decorate resolver: goast over %s; restore resolver: %s; entry=%d restoreAPI=%d extras=%v sameGoast=%v resolveLocal=%v",
 		faults.KindName(w.decKind), faults.KindName(w.resKind), w.entry, w.restoreAPI, w.extras, w.sameGoast, w.localPaths)
@@ -354,7 +357,11 @@ func Run(run *core.Run) {
 	}
 	for j := 1; j <= M && !run.Failed(); j++ {
 		cased(fmt.Sprintf("%s:inner:%d", wkey, j), func() {
-			decorateFault(run, w, truth, nil, &faults.Plan{KthCall: j, Transient: 1}, twinDecorated, fmt.Sprintf("inner#%d", j))
+			plan := &faults.Plan{KthCall: j, Transient: 1}
+			if w.notFoundErrs {
+				plan.Err = faults.NewNotFound(fmt.Sprint(j))
+			}
+			decorateFault(run, w, truth, nil, plan, twinDecorated, fmt.Sprintf("inner#%d", j))
 		})
 	}
 	// ---- every single fault on the restore side
@@ -364,12 +371,20 @@ func Run(run *core.Run) {
 		}
 		p := p
 		cased(fmt.Sprintf("%s:path:%s", wkey, p), func() {
-			restoreFault(run, w, truth, []*faults.Plan{{Paths: map[string]bool{p: true}}}, twinBytes, "path:"+p)
+			plan := &faults.Plan{Paths: map[string]bool{p: true}}
+			if w.notFoundErrs {
+				plan.Err = faults.NewNotFound(p) // a not-found condition that is not the bare sentinel
+			}
+			restoreFault(run, w, truth, []*faults.Plan{plan}, twinBytes, "path:"+p)
 		})
 	}
 	for k := 1; k <= len(P) && !run.Failed(); k++ {
 		cased(fmt.Sprintf("%s:call:%d", wkey, k), func() {
-			restoreFault(run, w, truth, []*faults.Plan{{KthCall: k}}, twinBytes, fmt.Sprintf("call#%d", k))
+			plan := &faults.Plan{KthCall: k}
+			if w.notFoundErrs {
+				plan.Err = faults.NewNotFound(fmt.Sprint(k))
+			}
+			restoreFault(run, w, truth, []*faults.Plan{plan}, twinBytes, fmt.Sprintf("call#%d", k))
 		})
 	}
 	// natural not-found faults: the real simple / gobuild resolvers over a map lacking one path
@@ -774,6 +789,9 @@ func nonFileFaults(run *core.Run, w *workload, wkey string, cased func(string, f
 	second := strings.Replace(w.spec.Src, "package "+w.spec.PkgName, "package "+w.spec.PkgName+"\n\n// second file", 1)
 	ioutil.WriteFile(filepath.Join(dir, "a.go"), []byte(w.spec.Src), 0644)
 	ioutil.WriteFile(filepath.Join(dir, "b.go"), []byte(second), 0644)
+	// a second package in the same directory (as an external test package would be)
+	other := strings.Replace(w.spec.Src, "package "+w.spec.PkgName, "package "+w.spec.PkgName+"_test", 1)
+	ioutil.WriteFile(filepath.Join(dir, "c.go"), []byte(other), 0644)
 	parseDir := func(plan *faults.Plan) (out string, n int, iw *faults.Ident, err error, pi *core.PanicInfo) {
 		iw = &faults.Ident{Inner: table, Plan: plan}
 		dec := decorator.NewDecoratorWithImports(token.NewFileSet(), LocalPath, iw)
